@@ -22,7 +22,10 @@ ASSUMPTIONS = [
     "f64 Display (PtgNum) is a parameter of model and spec (Section variable show_f64); the OCaml driver instantiates it with a shortest-round-trip printer compared against Rust's on every PtgNum case",
     "offsets into the formula buffer are modelled as character offsets (Rust: byte offsets, always at character boundaries); exercised with non-ASCII sheet names, defined names and string literals",
     "the decoders are reached through the verif hooks with code page 1200 (what BIFF8 files declare); other code pages are outside the model",
-    "FTAB / FTAB_ARGC are compared with a frozen reference copy (regression pin, not a conformance claim against MS-XLS 2.5.198.17)",
+    "FTAB / FTAB_ARGC are compared with a frozen reference copy = pinned source + the 3 arities (MMULT, LENB, CONVERT) an audit found wrong against the Ftab of MS-XLS 2.5.198.17; the other 482 arities were compared with the Ftab by that audit, the 485 names were not re-audited here",
+    "sheet names in 3-D references: bare for a word (first character a letter, '_' or non-ASCII; then the same, digits or '.'), else between apostrophes with apostrophes doubled; names that read as a cell reference or a boolean (A1, R1C1, TRUE), which Excel also quotes, are rendered bare by code and spec alike (residual, notes/C14.md)",
+    "PtgAttrSpace / PtgAttrSpaceSemi (white space typed into the formula) are display-neutral in the spec: the A1 text of the property's grammar has no white space; both decoders skip them",
+    "PtgFuncVar with tab 0x00FF: in domain when the first parameter is a PtgName (EName); with any other first operand the decoders print that operand's text in the name position (compared implementation vs model only)",
     "external-workbook references (iSupBook not the internal SupBook) and multi-sheet 3-D spans (itabFirst <> itabLast) are outside the property's grammar; calamine ignores iSupBook/itabLast",
     "defined names: every Lbl / BrtName / definedName / named-range record of the file is a defined name (the code filters nothing; hidden and built-in names keep their slot); an xls built-in name is its one-character code, as stored",
     "stored-text formats: the text of <f> (character data, entities and CDATA resolved) / of the table:formula attribute (entities resolved, of:= / = prefix kept) is the formula text; a repeated ods cell or row repeats its formula verbatim; cells whose text is empty are not formula cells",
@@ -190,7 +193,8 @@ class Gen:
 
     def env(self):
         rng = self.rng
-        pool = ["Sheet1", "Sheet2", "Data", "My Sheet", "Übersicht", "数据", "S", "a'b", "Sheet 10", "Δ"]
+        pool = ["Sheet1", "Sheet2", "Data", "My Sheet", "Übersicht", "数据", "S", "a'b", "Sheet 10", "Δ",
+                "O'Neil", "2024", "tax.rate", "A-B", "'q'", "1a", ".x", "x y'z"]
         ns = rng.randrange(1, 6)
         self.sheets = rng.sample(pool, ns)
         self.names = rng.sample(["rate", "Total", "x", "名前", "_n1", "Prix_€"], rng.randrange(0, 4))
@@ -215,7 +219,11 @@ class Gen:
         return self
 
     def env_args(self):
-        a = [names_arg(self.sheets), names_arg(self.names)]
+        # file tiers (quote_sheets): the table the readers hand to the decoder holds the sheet names as
+        # formula text writes them (quoted when the grammar demands it); the hook tiers pass the list as is
+        import fmlagen
+        sh = [fmlagen.sheet_text(s) for s in self.sheets] if getattr(self, "quote_sheets", False) else self.sheets
+        a = [names_arg(sh), names_arg(self.names)]
         if self.fmt == "xls":
             a.append(",".join("%d:%d:%d" % t for t in self.xtis) if self.xtis else "-")
         return a
@@ -275,7 +283,7 @@ class Gen:
         if leaf:
             k = rng.choice(["ref", "ref", "area", "ref3", "area3", "name", "int", "num", "str", "bool", "err", "miss"])
         else:
-            k = rng.choice(["un", "bin", "bin", "par", "func", "fvar", "fvar", "sum", "attr"])
+            k = rng.choice(["un", "bin", "bin", "par", "func", "fvar", "fvar", "sum", "attr", "attr", "choose", "user"])
         c.count("%s:ctor:%s" % (self.fmt, k))
         cls = lambda: rng.choice("rva")
         if k == "ref":
@@ -324,8 +332,41 @@ class Gen:
             return "fvar %s %d %d%s" % (cls(), ift, n, "".join(" " + self.expr(depth - 1) for _ in range(n)))
         if k == "sum":
             return "sum " + self.expr(depth - 1)
-        et = rng.choice([1, 2, 8, 0x20, 0x21]) if rng.random() < 0.9 else rng.choice([0x40, 0x41, 0x80, 0x04, 0x03])
-        return "attr %d %d %s" % (et, rng.choice([0, 1, 0x1234, 65535]), self.expr(depth - 1))
+        if k == "choose":
+            # CHOOSE as Excel writes it: idx, PtgAttrChoose(cOffset = n, n + 1 offsets), each value followed
+            # by a PtgAttrGoto, PtgFuncVar(n + 1, 100)
+            n = rng.choice([1, 2, 3, 4, 10, rng.randrange(1, 30)])
+            c.count("%s:choose:%d" % (self.fmt, n if n in (1, 2, 3, 4, 10) else 0))
+            vals = [self.expr(min(depth - 1, 1)) for _ in range(n)]
+            offs = [rng.choice([4 * i, rng.randrange(65536)]) for i in range(n + 1)]
+            if rng.random() < 0.04:
+                offs = offs[:-1]                                    # cOffset one short: still skippable
+            parts = ["post 8 %d chs %d %s %s" % (rng.randrange(65536), len(offs), " ".join(map(str, offs)), vals[0])]
+            parts += ["post 8 %d %s" % (rng.choice([3, rng.randrange(65536)]), v) for v in vals[1:]]
+            return "fvar %s 100 %d %s %s" % (cls(), n + 1, self.expr(min(depth - 1, 1)), " ".join(parts))
+        if k == "user":
+            # user-defined / future function: PtgName, arguments, PtgFuncVar(tab 255)
+            n = rng.choice([0, 1, 2, 3])
+            nn = len(self.names)
+            p = rng.random()
+            if nn and p < 0.85:
+                first = "name %s %d" % (cls(), rng.randrange(1, nn + 1))
+            elif p < 0.93:
+                first = "name %s %d" % (cls(), rng.choice([0, nn + 1]))   # not wf
+            else:
+                first = self.expr(0)                                       # not a name: not wf
+            c.count("%s:user_fn_argc:%d" % (self.fmt, n))
+            return "fvar %s 255 %d %s%s" % (cls(), n + 1, first, "".join(" " + self.expr(depth - 1) for _ in range(n)))
+        p = rng.random()
+        if p < 0.6:
+            et = rng.choice([1, 2, 8, 0x20, 0x21])
+        elif p < 0.9:
+            et = rng.choice([0x40, 0x41])                                  # PtgAttrSpace / PtgAttrSpaceSemi
+        else:
+            et = rng.choice([0x80, 0x04, 0x03, 0x10])
+        w = rng.choice([0, 1, 0x1234, 65535]) if et not in (0x40, 0x41) else rng.randrange(7) + 256 * rng.choice([0, 1, 2, 255])
+        c.count("%s:attr:%#x" % (self.fmt, et))
+        return "%s %d %d %s" % (rng.choice(["attr", "attr", "post"]), et, w, self.expr(depth - 1))
 
 
 def classify_ast(ctx, fmt, lid, ast_line, impl_line, ans, impl):
@@ -545,6 +586,28 @@ def corpus(ctx):
         ("xlsb", benv, "str 0 97.34.98"),
         ("xlsb", benv, "str 0 34.34.128512.34"),
         ("xlsb", benv, "str 0 65279.97"),                         # BOM-like first character (fixed by 98c2838)
+        # audit E1-E3: MMULT / LENB / CONVERT as PtgFunc (2 / 1 / 3 parameters)
+        ("xls", xenv, "func v 165 2 area r 0 0 1 1 1 1 1 1 area r 0 2 1 1 1 3 1 1"),
+        ("xlsb", benv, "func v 165 2 int 1 int 2"),
+        ("xls", xenv, "func v 211 1 str 1 26085.26412"),
+        ("xlsb", benv, "func v 211 1 ref r 0 0 1 1"),
+        ("xls", xenv, "func v 468 3 int 1 str 0 109 str 0 102.116"),
+        ("xlsb", benv, "func v 468 3 ref r 4 2 1 1 str 0 109 str 0 102.116"),
+        # audit E4: user-defined / future functions (tab 255): name(args); issue_182.xlsb!A2 = nm("A","b")
+        ("xlsb", benv, "fvar v 255 3 name r 1 str 0 65 attr 64 256 str 0 98"),
+        ("xls", xenv, "fvar v 255 3 name r 1 str 0 65 str 0 98"),
+        ("xls", xenv, "fvar v 255 1 name r 1"),
+        ("xlsb", benv, "bin 3 fvar v 255 2 name v 1 fvar v 255 1 name r 1 int 1"),
+        # audit G1: white space tokens, also in front of the first operand
+        ("xls", xenv, "attr 64 256 bin 3 int 1 attr 64 512 int 2"),
+        ("xlsb", benv, "attr 65 1 bin 3 int 1 post 64 513 int 2"),
+        ("xls", xenv, "par attr 64 1026 post 64 1028 int 5"),
+    ] + [
+        # audit G1: CHOOSE with 1, 2, 3, 4, 10 values (jump table + goto after each value)
+        (fmt, env, "fvar v 100 %d int 2 post 8 %d chs %d %s int 10%s" % (
+            n + 1, 4 * n, n + 1, " ".join(str(4 * i) for i in range(n + 1)),
+            "".join(" post 8 %d int %d" % (4 * (n - i), 10 + i) for i in range(1, n))))
+        for n in (1, 2, 3, 4, 10) for (fmt, env) in (("xls", xenv), ("xlsb", benv))
     ]
     ast_lines, impl_lines = [], []
     for k, (fmt, env, ast) in enumerate(cases):
@@ -584,6 +647,7 @@ def run_files(ctx, n, ftab_argc):
     shutil.rmtree(tmp, ignore_errors=True)
     os.makedirs(tmp, exist_ok=True)
     g = Gen(ctx, "xls", ftab_argc)
+    g.quote_sheets = True
     books, ast_lines = [], []
     for k in range(n):
         g.env()
@@ -952,6 +1016,7 @@ def run_xls_files2(ctx, n, argc):
     from props import c14_xlsfile as xf
     rng = ctx.rng
     g = Gen(ctx, "xls", argc)
+    g.quote_sheets = True
     books, ast_lines = [], []
     for k in range(n):
         g.env()
@@ -1392,9 +1457,63 @@ def run_twins(ctx):
                 ctx.nontrivial("twin|%s|%s|%s" % (b, e, n))
 
 
+def run_sheet_names(ctx):
+    """sheet names in formula text: the Coq model of utils::quote_sheet_name, the Coq spec (sheet_text) and
+    the independent Python reading of the grammar must agree on every name (the real function is
+    reached end to end: 3-D references of generated .xls / .xlsb files with such sheet names)"""
+    rng = ctx.rng
+    alph = "AZaz09_. '-!&()[]#\"+,;:$é数\u00a0\U0001F600"
+    names = ["", "Sheet1", "My Sheet", "O'Neil", "'", "''", "2024", "1a", ".x", "x.y", "_x", "a-b", "A1", "R1C1", "TRUE",
+             "数据", "Übersicht", "a\u00a0b", "x!", "é", "s p a c e", "tab\tname"]
+    for _ in range(ctx.scale(1500, 20000)):
+        names.append("".join(rng.choice(alph) for _ in range(rng.randrange(0, 9))))
+    lines = ["sq%d\tsheetq\t%s" % (i, hx(s) if s else ".") for i, s in enumerate(names)]
+    mod = ctx.run_model(lines)
+    for i, s in enumerate(names):
+        ctx.traces += 1
+        want = hx(fg.sheet_text(s))
+        got = mod.get("sq%d" % i, "")
+        ctx.count("sheet_name:%s" % ("quoted" if fg.sheet_text(s) != s else "bare"))
+        if got != want + "|" + want:
+            ctx.disagreements.append({"function": "quote_sheet_name (model) | sheet_text (spec) vs the Python reading of the grammar",
+                                      "case": lines[i], "impl": want + "|" + want, "model": got})
+
+
+def run_fixture_regressions(ctx):
+    """fixture cells whose formula text is known from Excel (the xlsx twin / the file's author)"""
+    repo = os.environ.get("VERIF_REPO", "/repo")
+    cases = [
+        # tests/issue_182.xlsb, first sheet: A2 = _xlfn.CONCAT("A","b") (audit E4: was User(_xlfn.CONCAT,"A","b"))
+        ("fx182", "xlsb", os.path.join(repo, "tests", "issue_182.xlsb"), (1, 0), '_xlfn.CONCAT("A","b")'),
+    ]
+    for lid, fmt, path, (r, c), text in cases:
+        if not os.path.exists(path):
+            ctx.notes.append("fixture %s not found" % path)
+            continue
+        names = ctx.run_impl(["%s_n\topen\t%s\t%s\tsheets" % (lid, fmt, path)])
+        first = (names.get(lid + "_n") or "").split(";;")[0].split(",")[0]
+        line = "%s\topen\t%s\t%s\tformula %s" % (lid, fmt, path, first)
+        got = ctx.run_impl([line]).get(lid, "")
+        ctx.traces += 1
+        cell = None
+        if got.startswith("R[") and "|" in got:
+            head, body = got[2:-1].split("|", 1)
+            r0, c0, r1, c1 = [int(x) for x in head.split(",")]
+            rows = [row.split(",") for row in body.split("/")]
+            if r0 <= r <= r1 and c0 <= c <= c1:
+                cell = bytes.fromhex(rows[r - r0][c - c0]).decode("utf-8")
+        if cell != text:
+            ctx.violations.append({"case": line, "expected": text, "actual": cell if cell is not None else got, "model": None,
+                                   "what": "fixture %s cell (%d,%d): the formula text Excel shows" % (os.path.basename(path), r, c)})
+        else:
+            ctx.nontrivial("fixture:" + lid)
+
+
 def run(ctx):
     argc = load_ftab()
     corpus(ctx)
+    run_sheet_names(ctx)
+    run_fixture_regressions(ctx)
     run_twins(ctx)
     run_columns(ctx)
     run_a1(ctx)
